@@ -273,6 +273,9 @@ func (w *world) refresh(cur *version, label string) *version {
 		if !oracle.Equal(ov[id].Group, vs[id].Group) {
 			w.violate("C08", "refresh-changed-key", fmt.Sprintf("%s: the group key of party %q changed in a refresh", w.scheme, id))
 		}
+		if ov[id].Threshold != vs[id].Threshold {
+			w.violate("C08", "refresh-changed-threshold", fmt.Sprintf("%s n=%d: the threshold of party %q is %d after the refresh, it was %d", w.scheme, len(w.ids), id, vs[id].Threshold, ov[id].Threshold))
+		}
 		if ov[id].Secret.Cmp(vs[id].Secret) == 0 && (w.t > 0 || w.scheme == "doerner") {
 			w.violate("C08", "share-unchanged", fmt.Sprintf("%s: the secret share of party %q is the same after the refresh", w.scheme, id))
 		}
